@@ -19,7 +19,7 @@ SPECS["C17"] = {
     "real": ["esutil.integrate QGauss/QGauss2/qgauss/gauleg (Python and _cgauleg C)", "esutil.stat.interplin"],
     "stub": [],
     "expect_reach": ["npts_changed_on_live_object", "call_after_aborted_call", "integrand_raised",
-                     "bad_npts_rejected", "bad_range_rejected"],
+                     "bad_npts_rejected", "bad_range_rejected", "sibling_table_same_length_and_end_points"],
     "manifest": {
         "design_ref": "3.4",
         "level_text": ("seeded search over call histories (changing/repeated/omitted point counts, integrands "
